@@ -975,6 +975,10 @@ func rulesC08(p *Prog, r *Report) {
 	// decision list evaluated below is what decides its spelling, too — a shortcut that builds nodes for
 	// "plain" entries by hand gives one spelling of a pair a meaning of its own
 	rulesAllowedSet(p, r)
+	// Q2 evaluates 'same family and version group' on the table itself: that is what the matcher sees only if
+	// the range lookup records the table's positions and the matcher compares them under the family gate
+	// (T5-T8, the code clauses of C11)
+	rulesRangeCode(p, r)
 	t, err := p.LoadTables()
 	if err != nil {
 		r.Unknown("A1", "tables", "-", err.Error())
